@@ -78,7 +78,7 @@ fn hostile_payload(rng: &mut StdRng, class: usize) -> Vec<u8> {
 }
 
 async fn run(mut sim: Sim, seed: u64, streams: usize) -> Result<Value, String> {
-    let o = Opts { nodes: 2, ops: 0, faults: false, restarts: false, known: false, limit: None, idle_ms: 30_000, keepalive_ms: Some(5_000) };
+    let o = Opts { nodes: 2, ops: 0, faults: false, restarts: false, known: false, limit: None, idle_ms: 30_000, keepalive_ms: Some(5_000), hetero: false };
     let keys = sim::sorted_keys(3, &mut sim.rng);
     // identity indexes: V and H are nodes 0 and 1; the adversary is registered as 100
     let a_key = keys[2];
